@@ -165,7 +165,7 @@ def fault_kinds_for(kd):
         kinds += ["NOTFOUND", "ERR_BEFORE", "ERR_MID", "ERR_AFTER"]
     elif kd["scheme"] == "https":
         kinds += ["HTTP_404", "HTTP_5XX", "CONN_ERR", "TIMEOUT"]
-    kinds += ["EIO", "ENOSPC", "SHORT_WRITE", "EMFILE"]
+    kinds += ["EIO", "ENOSPC", "SHORT_WRITE", "EMFILE", "RENAME_EIO"]
     if kd["pp"]:
         kinds += ["PP_ERR_BEFORE", "PP_ERR_MID", "PP_ERR_AFTER"]
     return kinds
@@ -216,7 +216,7 @@ def make_fault(rng, op_id, kind, key):
         f["nth"] = rng.choice([0, 0, 1, 2])
     if kind == "SHORT_WRITE":
         f["frac"] = rng.choice([0.0, 0.3, 0.9])
-    if kind == "EMFILE":
+    if kind in ("EMFILE", "RENAME_EIO"):
         f["nth"] = 0
     return f
 
@@ -230,9 +230,39 @@ def gen_crash(rng, knobs, ops):
     return {"op": op["id"], "at": at, "torn": rng.choice([None, 0.0, 0.5, 0.99])}
 
 
+def zombie_profile(rng, rec):
+    """A history built to keep a pool worker of a failed parallel request alive ("zombie") while the
+    caller goes on: a >= 6-miss parallel request whose first chunk fails early, an immediate retry,
+    then hits on the same keys while the zombie may still be writing."""
+    knobs = rec["knobs"]
+    K = len(knobs["keys"])
+    m = rng.randint(6, min(12, K))
+    keys = rng.sample(range(K), m)
+    ops = rec["ops"]
+    nid = max([o["id"] for o in ops if isinstance(o["id"], int)] + [0]) + 1
+    pos = rng.randint(0, min(2, len(ops)))
+    first = {"id": nid, "op": "GET", "keys": keys, "dt": 1000}
+    fk = keys[rng.randint(0, min(4, m - 1))]
+    kind = rng.choice([k for k in fault_kinds_for(knobs["keys"][fk]) if k not in ("SHORT_WRITE",)] + ["ERR_BEFORE"] * 2)
+    if kind == "ERR_BEFORE" and knobs["keys"][fk]["scheme"] != "sim":
+        kind = "EMFILE"
+    seq = [first]
+    for j in range(rng.randint(1, 3)):
+        sub = keys if rng.random() < 0.6 else rng.sample(keys, rng.randint(1, m))
+        seq.append({"id": nid + 1 + j, "op": "GET", "keys": list(sub), "dt": rng.choice([0, 0, 1000])})
+    rec["ops"] = ops[:pos] + seq + ops[pos:]
+    rec["faults"].append(make_fault(rng, nid, kind, fk))
+    if rng.random() < 0.4:
+        # a second fault, planned for the retry: it may be consumed by the zombie instead
+        k2 = rng.choice(keys[5:] or keys)
+        rec["faults"].append(make_fault(rng, nid + 1, rng.choice(fault_kinds_for(knobs["keys"][k2])), k2))
+
+
 def generate(prop, seed, profile=None):
     profile = profile or {}
     rng = random.Random(mix(seed, "gen", prop))
+    if prop == "C19" and "zombie" not in profile and not profile.get("fault_free") and rng.random() < 0.15:
+        profile = dict(profile, zombie=True, big_requests=True, parallel=True)
     knobs = gen_knobs(rng, prop, profile)
     ops = gen_ops(rng, prop, knobs, profile)
     rec = {"property": prop, "seed": seed, "knobs": knobs, "ops": ops, "faults": [], "crash": None, "clock_events": []}
@@ -243,6 +273,10 @@ def generate(prop, seed, profile=None):
             rec["clock_events"].append({"op": op["id"], "at": rng.randint(0, 30), "delta": delta})
     if prop == "C19" and not profile.get("fault_free"):
         rec["faults"] = gen_faults(rng, knobs, ops)
+        if profile.get("zombie") and len(knobs["keys"]) >= 6:
+            if knobs["sched"]["policy"] == "none":
+                knobs["sched"] = {"policy": "sticky", "p": 0.5}
+            zombie_profile(rng, rec)
         if rng.random() < 0.35:
-            rec["crash"] = gen_crash(rng, knobs, ops)
+            rec["crash"] = gen_crash(rng, knobs, rec["ops"])
     return rec
